@@ -1,6 +1,7 @@
 import MypyVerif.Proofs.StubSig
 import MypyVerif.Proofs.StubImports
 import MypyVerif.Proofs.StubDefault
+import MypyVerif.Gen.StubCfg
 /-!
 # C19 — generated stubs are valid, self-consistent and faithful: the three decision cores
 
@@ -9,54 +10,78 @@ What is proved here is about the *models* of (a) signature emission, (b) default
 (c) import bookkeeping; validity and faithfulness of whole stubs are searched with the real tools
 (harness/c19), not proved.
 
-Three full-strength statements are false of the current code and are kept visible as `not_…` theorems with
-concrete witnesses (replayed on the real stubgen by harness/c19 on every run):
-  * `not_sig_roundtrip`, `not_sig_valid`      — parameters named `__x` outside the `/` prefix   (F-C19-1)
-  * `not_default_closed`                      — `not 1` ↦ `not1`, `1e999` ↦ `inf`               (F-C19-2, F-C19-3)
-  * `not_default_is_valid_expr`               — bytes containing both quote characters          (F-C19-4)
+Four decision points exist in two variants — the rule as found and the repaired rule (F-C19-1..4); which one
+the checked tree implements is observed by translate/c19cfg.py and generated into `Gen/StubCfg.lean`.  For
+every flag BOTH statements are proved, each under the hypothesis that the flag has the corresponding value:
+
+  flag (Gen/StubCfg)       repaired (= true): full statement        as found (= false): refutation + provable part
+  slashContiguous          sig_roundtrip, sig_valid                 not_sig_roundtrip, not_sig_valid, sig_*_partial
+  notSpaced / bytesQuote   default_is_valid_expr                    not_default_is_valid_expr, default_is_valid_expr_partial
+  … / nonFiniteEllipsis    default_closed                           not_default_closed, default_closed_partial
+
+and the `*_status` theorems say exactly for which flag values the full statement holds; `checked_tree_*`
+instantiate them at the generated constants, so the obligation is re-checked against what the code does now.
 -/
 namespace StubSig
 open StubDefault
 
-variable (sl : Nat → Nat)
+variable (c : DCfg) (sl : Nat → Nat)
 
 /-! ## (a) signature emission -/
 
-/-- **sig_roundtrip** (the provable part).  For every signature Python's grammar admits — any number of
-    positional-only, positional, keyword-only parameters, optional `*args`/`**kwargs`, any annotations,
-    defaults obeying the compiler's rule — in which no parameter outside the `/` prefix is named `__x` and
-    every initializer satisfies the hypotheses of (b): Python reads the emitted parameter list back as the
-    same names, kinds and has-default flags. -/
-theorem sig_roundtrip_partial (s : PySig) (hd : s.DefaultsOk) (hne : s.NoElide) (hg : s.GoodDefaults) :
-    parseItems (emitArgs sl false s.toMypy) = some s.summary :=
-  roundtrip_E sl elide s hd hne hg
+/-- **sig_roundtrip** (full statement; holds of the repaired `/` rule).  For every signature Python's grammar
+    admits — any parameter kinds, names (`__x` included), annotations, defaults obeying the compiler's rule —
+    whose initializers satisfy the hypotheses of (b): Python reads the emitted parameter list back as the
+    signature mypy's parser saw, i.e. the same names and has-default flags, and the same kinds up to PEP 484's
+    convention that a leading run of positional parameters named `__x` is positional-only (`normalize`). -/
+theorem sig_roundtrip (s : PySig) (hd : s.DefaultsOk) (hg : s.GoodDefaults c) :
+    parseItems (emitArgs c sl true false s.toMypy) = some s.normalize.summary := by
+  rw [emit_contig, PySig.toMypy, prefixOnly_toMypy]
+  exact roundtrip_E c sl (fun _ => false) s.normalize (defaultsOk_normalize s hd) (normalize_noElide s)
+    (goodDefaults_normalize c s hg)
 
-/-- **sig_valid** (the provable part): the emitted parameter list is an instance of Python's grammar
-    production (`GrammarShape`) — `/` only after at least one positional-only parameter, at most one `*`
-    (bare only when a keyword-only parameter follows), at most one `**` and it is last, no non-default after
-    a default among the positionals. -/
-theorem sig_valid_partial (s : PySig) (hd : s.DefaultsOk) (hne : s.NoElide) :
-    GrammarShape (emitArgs sl false s.toMypy) :=
-  valid_E sl elide s hd hne
+/-- `normalize` touches kinds only: names and has-default flags are those of the source -/
+theorem normalize_names_flags (s : PySig) :
+    (s.normalize.summary.map fun x => (x.1, x.2.2)) = s.summary.map fun x => (x.1, x.2.2) := by
+  simp only [PySig.summary, PySig.normalize, List.map_append, List.map_map, Function.comp_def, List.append_assoc]
+  congr 1
+  rw [← List.append_assoc, ← List.map_append, List.take_append_drop]
 
-/-- **sig_roundtrip_magic**: for the methods of MAGIC_METHODS_POS_ARGS_ONLY (`__add__`, `__eq__`, …) the
-    `pos_only` flags are ignored, so the round trip holds whatever the parameter names are — provided the
-    source has no `/` (one in the source is dropped by design: mypy elides those names anyway). -/
-theorem sig_roundtrip_magic (s : PySig) (hpo : s.po = []) (hd : s.DefaultsOk) (hg : s.GoodDefaults) :
-    parseItems (emitArgs sl true s.toMypy) = some s.summary := by
-  rw [emit_magic, PySig.toMypy, toMypy_clearPO elide s hpo]
-  exact roundtrip_E sl (fun _ => false) s hd (by simp [PySig.NoElideE]) hg
+/-- **sig_valid** (full statement; repaired rule): the emitted parameter list is an instance of Python's
+    grammar production, whatever the parameter names. -/
+theorem sig_valid (s : PySig) (hd : s.DefaultsOk) : GrammarShape (emitArgs c sl true false s.toMypy) := by
+  rw [emit_contig, PySig.toMypy, prefixOnly_toMypy]
+  exact valid_E c sl (fun _ => false) s.normalize (defaultsOk_normalize s hd) (normalize_noElide s)
 
-/-- corollary: Python accepts the emitted parameter list -/
-theorem sig_parses_partial (s : PySig) (hd : s.DefaultsOk) (hne : s.NoElide) (hg : s.GoodDefaults) :
-    (parseItems (emitArgs sl false s.toMypy)).isSome = true := by
-  rw [sig_roundtrip_partial sl s hd hne hg]; rfl
+/-- **sig_roundtrip_partial** (either rule): when no parameter outside the `/` prefix is named `__x`, the
+    emitted parameter list reads back as exactly the source's names, kinds and has-default flags. -/
+theorem sig_roundtrip_partial (contig : Bool) (s : PySig) (hd : s.DefaultsOk) (hne : s.NoElide)
+    (hg : s.GoodDefaults c) : parseItems (emitArgs c sl contig false s.toMypy) = some s.summary := by
+  cases contig with
+  | false => exact roundtrip_E c sl elide s hd hne hg
+  | true => rw [sig_roundtrip c sl s hd hg, normalize_of_noElide s hne]
 
-/-! The full statements (without `NoElide`) are false of the current code: `make_argument` sets `pos_only`
-    for every parameter named `__x`, whatever its kind and position, and `_get_func_args` *counts* the
-    flags to place the `/`. -/
+/-- **sig_valid_partial** (either rule) -/
+theorem sig_valid_partial (contig : Bool) (s : PySig) (hd : s.DefaultsOk) (hne : s.NoElide) :
+    GrammarShape (emitArgs c sl contig false s.toMypy) := by
+  cases contig with
+  | false => exact valid_E c sl elide s hd hne
+  | true => exact sig_valid c sl s hd
 
-def ident (s : String) : Ident := s.toList
+/-- **sig_roundtrip_magic** (either rule): for the methods of MAGIC_METHODS_POS_ARGS_ONLY the `pos_only` flags
+    are ignored, so the round trip holds whatever the parameter names are — provided the source has no `/`
+    (one in the source is dropped by design: mypy elides those names anyway). -/
+theorem sig_roundtrip_magic (contig : Bool) (s : PySig) (hpo : s.po = []) (hd : s.DefaultsOk)
+    (hg : s.GoodDefaults c) : parseItems (emitArgs c sl contig true s.toMypy) = some s.summary := by
+  have h0 : parseItems (emitArgs c sl false true s.toMypy) = some s.summary := by
+    rw [emit_magic, PySig.toMypy, toMypy_clearPO elide s hpo]
+    exact roundtrip_E c sl (fun _ => false) s hd (by simp [PySig.NoElideE]) hg
+  cases contig with
+  | false => exact h0
+  | true => rw [emit_contig_magic]; exact h0
+
+/-! The rule as found: `make_argument` sets `pos_only` for every parameter named `__x`, whatever its kind and
+    position, and `_get_func_args` *counts* the flags to place the `/`. -/
 
 /-- `def k(__x, *, __y): ...`  ⟶  `def k(__x, *, /, __y)` -/
 def witnessSyntax : PySig :=
@@ -66,31 +91,56 @@ def witnessSyntax : PySig :=
 def witnessKind : PySig :=
   { po := [], pp := [⟨['a'], none, none⟩], va := none, kw := [⟨['_','_','x'], none, none⟩], ka := none }
 
-theorem witnessSyntax_unparseable : parseItems (emitArgs (fun _ => 0) false witnessSyntax.toMypy) = none := by
-  decide
+theorem witnessSyntax_unparseable :
+    parseItems (emitArgs DCfg.asFound (fun _ => 0) false false witnessSyntax.toMypy) = none := by decide
 
 theorem witnessKind_changed :
-    parseItems (emitArgs (fun _ => 0) false witnessKind.toMypy) =
-      some [(['a'], .posOnly, false), (['_','_','x'], .kwOnly, false)] := by
-  decide
+    parseItems (emitArgs DCfg.asFound (fun _ => 0) false false witnessKind.toMypy) =
+      some [(['a'], .posOnly, false), (['_','_','x'], .kwOnly, false)] := by decide
 
-/-- **not_sig_roundtrip**: the round trip fails for a signature Python accepts. -/
-theorem not_sig_roundtrip :
-    ¬ ∀ (sl : Nat → Nat) (s : PySig), s.DefaultsOk →
-        parseItems (emitArgs sl false s.toMypy) = some s.summary := by
+/-- the full statements, as predicates of the rule -/
+def SigAlwaysParses (contig : Bool) : Prop :=
+  ∀ (c : DCfg) (sl : Nat → Nat) (s : PySig), s.DefaultsOk → s.GoodDefaults c →
+    (parseItems (emitArgs c sl contig false s.toMypy)).isSome = true
+
+def SigRoundTrips (contig : Bool) : Prop :=
+  ∀ (c : DCfg) (sl : Nat → Nat) (s : PySig), s.DefaultsOk → s.GoodDefaults c →
+    parseItems (emitArgs c sl contig false s.toMypy) = some s.normalize.summary
+
+/-- **not_sig_valid** (rule as found): an emitted parameter list that Python rejects. -/
+theorem not_sig_valid : ¬ SigAlwaysParses false := by
   intro h
-  have := h (fun _ => 0) witnessSyntax (by decide)
+  have := h DCfg.asFound (fun _ => 0) witnessSyntax (by decide) (by decide)
   rw [witnessSyntax_unparseable] at this
   cases this
 
-/-- **not_sig_valid**: an emitted parameter list that Python rejects. -/
-theorem not_sig_valid :
-    ¬ ∀ (sl : Nat → Nat) (s : PySig), s.DefaultsOk →
-        (parseItems (emitArgs sl false s.toMypy)).isSome = true := by
+/-- **not_sig_roundtrip** (rule as found) -/
+theorem not_sig_roundtrip : ¬ SigRoundTrips false := by
   intro h
-  have := h (fun _ => 0) witnessSyntax (by decide)
+  have := h DCfg.asFound (fun _ => 0) witnessSyntax (by decide) (by decide)
   rw [witnessSyntax_unparseable] at this
   cases this
+
+/-- **sig_valid_status / sig_roundtrip_status**: the full statements hold exactly of the repaired rule. -/
+theorem sig_valid_status (contig : Bool) : SigAlwaysParses contig ↔ contig = true := by
+  constructor
+  · intro h; cases contig with
+    | true => rfl
+    | false => exact absurd h not_sig_valid
+  · intro h; subst h; intro c sl s hd hg; rw [sig_roundtrip c sl s hd hg]; rfl
+
+theorem sig_roundtrip_status (contig : Bool) : SigRoundTrips contig ↔ contig = true := by
+  constructor
+  · intro h; cases contig with
+    | true => rfl
+    | false => exact absurd h not_sig_roundtrip
+  · intro h; subst h; intro c sl s hd hg; exact sig_roundtrip c sl s hd hg
+
+/-- the obligations for the tree under check (regenerated constant) -/
+theorem checked_tree_sig_valid : SigAlwaysParses StubCfg.slashContiguous ↔ StubCfg.slashContiguous = true :=
+  sig_valid_status _
+theorem checked_tree_sig_roundtrip : SigRoundTrips StubCfg.slashContiguous ↔ StubCfg.slashContiguous = true :=
+  sig_roundtrip_status _
 
 -- non-vacuity: a signature using every parameter kind satisfies the hypotheses, and the round trip is concrete
 def demoSig : PySig :=
@@ -99,10 +149,15 @@ def demoSig : PySig :=
     va := none,
     kw := [⟨['c'], some "str", none⟩, ⟨['d'], none, some (.const .true)⟩],
     ka := some ⟨['k','w'], none⟩ }
-example : demoSig.DefaultsOk ∧ demoSig.NoElide ∧ demoSig.GoodDefaults := by decide
-example : (parseItems (emitArgs (fun _ => 0) false demoSig.toMypy)) = some demoSig.summary :=
-  sig_roundtrip_partial _ demoSig (by decide) (by decide) (by decide)
-example : (emitArgs (fun _ => 0) false demoSig.toMypy).length = 8 := by decide   -- 6 parameters + `/` + `*`
+example : demoSig.DefaultsOk ∧ demoSig.NoElide ∧ demoSig.GoodDefaults DCfg.asFound := by decide
+example : (parseItems (emitArgs DCfg.asFound (fun _ => 0) false false demoSig.toMypy)) = some demoSig.summary :=
+  sig_roundtrip_partial _ _ false demoSig (by decide) (by decide) (by decide)
+example : (emitArgs DCfg.asFound (fun _ => 0) false false demoSig.toMypy).length = 8 := by decide   -- 6 parameters + `/` + `*`
+-- the repaired rule on the two witnesses: valid, and `a` stays positional-or-keyword
+example : parseItems (emitArgs DCfg.repaired (fun _ => 0) true false witnessSyntax.toMypy) =
+    some [(['_','_','x'], .posOnly, false), (['_','_','y'], .kwOnly, false)] := by decide
+example : parseItems (emitArgs DCfg.repaired (fun _ => 0) true false witnessKind.toMypy) = some witnessKind.summary := by
+  decide
 
 end StubSig
 
@@ -110,20 +165,27 @@ namespace StubDefault
 
 /-! ## (b) default-value rendering -/
 
-/-- **default_is_valid_expr** (the provable part): when the initializer contains no `not` operator and every
-    bytes literal in it renders to one well-formed lexeme, the emitted default — the rendered literal, or
-    `...` when the code gives up or the text is longer than 200 characters — is an expression of Python's
-    grammar. -/
-theorem default_is_valid_expr_partial (sl : Nat → Nat) (e : DExpr) (hg : e.good = true) :
-    IsExpr (defaultToks sl e) := by
+/-- **default_is_valid_expr_partial** (either variant of every rule): when every `not` operator is spaced by
+    the tree (or absent) and every bytes literal renders to one well-formed lexeme (`DExpr.good`), the emitted
+    default — the rendered literal, or `...` when the code gives up or the text is longer than 200 characters —
+    is an expression of Python's grammar. -/
+theorem default_is_valid_expr_partial (c : DCfg) (sl : Nat → Nat) (e : DExpr) (hg : e.good c = true) :
+    IsExpr (defaultToks c sl e) := by
   unfold defaultToks
-  cases h : render e with
+  cases h : render c e with
   | none => exact IsExpr.ellipsis
   | some t =>
     simp only
     split
-    · exact render_isExpr e t h hg
+    · exact render_isExpr c e t h hg
     · exact IsExpr.ellipsis
+
+/-- **default_is_valid_expr** (full statement; holds of the repaired `not` and bytes rules): for every
+    initializer mypy's parser can produce (`wf`: bytes bodies are bytes-`repr` bodies) the emitted default is an
+    expression of Python's grammar. -/
+theorem default_is_valid_expr (c : DCfg) (hn : c.notSpaced = true) (hb : c.bytesQuote = true) (sl : Nat → Nat)
+    (e : DExpr) (hw : e.wf = true) : IsExpr (defaultToks c sl e) :=
+  default_is_valid_expr_partial c sl e (good_of_wf c hn hb e hw)
 
 /-- **infer_type_sound**: when `get_str_type_of_node` names a type for an unannotated parameter's default
     (`x=-1` ↦ `x: int = -1`), that is the run-time type of the literal — for every literal, through any
@@ -158,49 +220,128 @@ example : inferType (.unary .neg (.unary .pos (.float "1.5" true))) = some "floa
     inferType (.unary .not (.unary .not (.const .true))) = some "bool" ∧
     inferType (.unary .neg (.const .true)) = none ∧ inferType (.unary .inv (.int 1)) = none := by decide
 
-/-- **default_closed** (the provable part): under the same hypotheses and when every float literal is finite,
-    the emitted default contains no free name and no mis-lexed text: it is a literal display (or `...`) and
-    denotes in the stub what the initializer denotes in the source. -/
-theorem default_closed_partial (sl : Nat → Nat) (e : DExpr) (hg : e.good = true) (hf : e.finite = true) :
-    Closed (defaultToks sl e) = true := by
+/-- **default_closed_partial** (either variant): under `good`, and when every float literal is finite (or the
+    tree does not render the others), the emitted default contains no free name and no mis-lexed text: it is a
+    literal display (or `...`) and denotes in the stub what the initializer denotes in the source. -/
+theorem default_closed_partial (c : DCfg) (sl : Nat → Nat) (e : DExpr) (hg : e.good c = true)
+    (hf : e.finite c = true) : Closed (defaultToks c sl e) = true := by
   unfold defaultToks
-  cases h : render e with
+  cases h : render c e with
   | none => rfl
   | some t =>
     simp only
     split
-    · exact render_closed e t h hg hf
+    · exact render_closed c e t h hg hf
     · rfl
 
-/-- `b'\'"'` (a bytes literal containing both kinds of quote): BytesExpr.value is `\'"`, rendered `b'\\'"'` -/
+/-- **default_closed** (full statement; holds of the three repaired rules) -/
+theorem default_closed (c : DCfg) (hn : c.notSpaced = true) (hf : c.nonFiniteEllipsis = true)
+    (hb : c.bytesQuote = true) (sl : Nat → Nat) (e : DExpr) (hw : e.wf = true) :
+    Closed (defaultToks c sl e) = true :=
+  default_closed_partial c sl e (good_of_wf c hn hb e hw) (finite_repaired c hf e)
+
+/-- `b'\'"'` (a bytes literal containing both kinds of quote): BytesExpr.value is `\'"` -/
 def witnessBytes : DExpr := .bytes ['\\', '\'', '"']
-/-- `not 1.5` ⟶ the text `not1.5` -/
+/-- `not 1.5` -/
 def witnessNotFloat : DExpr := .unary .not (.float "1.5" true)
-/-- `not 1` ⟶ the text `not1`, a name -/
+/-- `not 1` -/
 def witnessNotInt : DExpr := .unary .not (.int 1)
-/-- `1e999` ⟶ the text `inf`, a name -/
+/-- `1e999` -/
 def witnessInf : DExpr := .float "inf" false
 
-/-- **not_default_is_valid_expr**: full statement refuted (two independent witnesses). -/
-theorem not_default_is_valid_expr : ¬ ∀ (sl : Nat → Nat) (e : DExpr), IsExpr (defaultToks sl e) := by
-  intro h
-  have h1 := h (fun _ => 0) witnessBytes
-  have e1 : defaultToks (fun _ => 0) witnessBytes = [.bytes "'\\\\'\"'".toList] := by decide
-  rw [e1] at h1
-  exact bad_bytes_not_expr _ (by decide) h1
+example : witnessBytes.wf = true ∧ witnessNotFloat.wf = true ∧ witnessNotInt.wf = true ∧ witnessInf.wf = true := by
+  decide
 
-theorem witnessNotFloat_invalid : ¬ IsExpr (defaultToks (fun _ => 0) witnessNotFloat) := by
-  have e1 : defaultToks (fun _ => 0) witnessNotFloat = [.raw "not1.5"] := by decide
+/-- the full statements, as predicates of the rules -/
+def DefaultAlwaysExpr (c : DCfg) : Prop := ∀ (sl : Nat → Nat) (e : DExpr), e.wf = true → IsExpr (defaultToks c sl e)
+def DefaultAlwaysClosed (c : DCfg) : Prop :=
+  ∀ (sl : Nat → Nat) (e : DExpr), e.wf = true → Closed (defaultToks c sl e) = true
+
+/-- as found, `b'\'"'` is rendered `b'\\'"'`: not one literal -/
+theorem witnessBytes_invalid (c : DCfg) (h : c.bytesQuote = false) : ¬ IsExpr (defaultToks c (fun _ => 0) witnessBytes) := by
+  obtain ⟨a, b, d⟩ := c
+  simp only at h; subst h
+  have e1 : defaultToks ⟨a, b, false⟩ (fun _ => 0) witnessBytes = [.bytes "'\\\\'\"'".toList] := by
+    cases a <;> cases b <;> decide
+  rw [e1]; exact bad_bytes_not_expr _ (by decide)
+
+/-- as found, `not 1.5` is rendered `not1.5` -/
+theorem witnessNotFloat_invalid (c : DCfg) (h : c.notSpaced = false) :
+    ¬ IsExpr (defaultToks c (fun _ => 0) witnessNotFloat) := by
+  obtain ⟨a, b, d⟩ := c
+  simp only at h; subst h
+  have e1 : defaultToks ⟨false, b, d⟩ (fun _ => 0) witnessNotFloat = [.raw "not1.5"] := by
+    cases b <;> cases d <;> decide
   rw [e1]; exact raw_not_expr _
 
-/-- **not_default_closed**: `not 1` and `1e999` are emitted as the free names `not1` and `inf`. -/
-theorem not_default_closed :
-    ¬ ∀ (sl : Nat → Nat) (e : DExpr), e.finite = true → Closed (defaultToks sl e) = true := by
-  intro h
-  have := h (fun _ => 0) witnessNotInt (by decide)
-  revert this; decide
+/-- **not_default_is_valid_expr** (either rule as found) -/
+theorem not_default_is_valid_expr (c : DCfg) (h : c.notSpaced = false ∨ c.bytesQuote = false) :
+    ¬ DefaultAlwaysExpr c := by
+  intro hall
+  rcases h with h | h
+  · exact witnessNotFloat_invalid c h (hall _ _ (by decide))
+  · exact witnessBytes_invalid c h (hall _ _ (by decide))
 
-theorem witnessInf_free_name : defaultToks (fun _ => 0) witnessInf = [.name "inf"] := by decide
+/-- as found, `not 1` is the free name `not1` and `1e999` the free name `inf` -/
+theorem witnessNotInt_free_name (c : DCfg) (h : c.notSpaced = false) :
+    defaultToks c (fun _ => 0) witnessNotInt = [.name "not1"] := by
+  obtain ⟨a, b, d⟩ := c
+  simp only at h; subst h
+  cases b <;> cases d <;> decide
+
+theorem witnessInf_free_name (c : DCfg) (h : c.nonFiniteEllipsis = false) :
+    defaultToks c (fun _ => 0) witnessInf = [.name "inf"] := by
+  obtain ⟨a, b, d⟩ := c
+  simp only at h; subst h
+  cases a <;> cases d <;> decide
+
+/-- **not_default_closed** (the `not` or the float rule as found) -/
+theorem not_default_closed (c : DCfg) (h : c.notSpaced = false ∨ c.nonFiniteEllipsis = false) :
+    ¬ DefaultAlwaysClosed c := by
+  intro hall
+  rcases h with h | h
+  · have := hall (fun _ => 0) witnessNotInt (by decide)
+    rw [witnessNotInt_free_name c h] at this; revert this; decide
+  · have := hall (fun _ => 0) witnessInf (by decide)
+    rw [witnessInf_free_name c h] at this; revert this; decide
+
+/-- **default_valid_status / default_closed_status**: the full statements hold exactly of the repaired rules. -/
+theorem default_valid_status (c : DCfg) : DefaultAlwaysExpr c ↔ (c.notSpaced = true ∧ c.bytesQuote = true) := by
+  constructor
+  · intro h
+    cases hn : c.notSpaced with
+    | false => exact absurd h (not_default_is_valid_expr c (Or.inl hn))
+    | true =>
+      cases hb : c.bytesQuote with
+      | false => exact absurd h (not_default_is_valid_expr c (Or.inr hb))
+      | true => exact ⟨rfl, rfl⟩
+  · intro ⟨hn, hb⟩ sl e hw; exact default_is_valid_expr c hn hb sl e hw
+
+/-- "the emitted default is always a closed literal expression" holds exactly when all three rules are repaired -/
+def DefaultAlwaysLiteral (c : DCfg) : Prop := DefaultAlwaysExpr c ∧ DefaultAlwaysClosed c
+
+theorem default_literal_status (c : DCfg) :
+    DefaultAlwaysLiteral c ↔ (c.notSpaced = true ∧ c.nonFiniteEllipsis = true ∧ c.bytesQuote = true) := by
+  constructor
+  · intro ⟨he, hc⟩
+    obtain ⟨hn, hb⟩ := (default_valid_status c).1 he
+    cases hf : c.nonFiniteEllipsis with
+    | false => exact absurd hc (not_default_closed c (Or.inr hf))
+    | true => exact ⟨hn, rfl, hb⟩
+  · intro ⟨hn, hf, hb⟩
+    exact ⟨fun sl e hw => default_is_valid_expr c hn hb sl e hw, fun sl e hw => default_closed c hn hf hb sl e hw⟩
+
+/-- the obligations for the tree under check (regenerated constants) -/
+def current : DCfg := ⟨StubCfg.notSpaced, StubCfg.nonFiniteEllipsis, StubCfg.bytesQuote⟩
+
+theorem checked_tree_default_valid :
+    DefaultAlwaysExpr current ↔ (StubCfg.notSpaced = true ∧ StubCfg.bytesQuote = true) :=
+  default_valid_status current
+
+theorem checked_tree_default_literal :
+    DefaultAlwaysLiteral current ↔
+      (StubCfg.notSpaced = true ∧ StubCfg.nonFiniteEllipsis = true ∧ StubCfg.bytesQuote = true) :=
+  default_literal_status current
 
 /-! a sufficient syntactic condition for a bytes literal to be rendered well: no backslash, no `'` -/
 
@@ -230,9 +371,15 @@ theorem plain_bytes_ok (b : List Char) (h : ∀ c ∈ b, c ≠ '\\' ∧ c ≠ '\
 def demoDefault : DExpr :=
   .tuple (.cons (.int 1) (.cons (.list (.cons (.unary .neg (.float "1.5" true)) (.cons (.bytes ['x', '"']) .nil)))
     (.cons (.dict (.cons (.str 0) (.const .none) .nil)) .nil)))
-example : demoDefault.good = true ∧ demoDefault.finite = true := by decide
-example : renderText (defaultToks (fun _ => 3) demoDefault) = "(1, [-1.5, b'x\"'], {'s0': None})" := by decide
-example : IsExpr (defaultToks (fun _ => 3) demoDefault) := default_is_valid_expr_partial _ _ (by decide)
+example : demoDefault.good DCfg.asFound = true ∧ demoDefault.finite DCfg.asFound = true ∧ demoDefault.wf = true := by decide
+example : renderText (defaultToks DCfg.asFound (fun _ => 3) demoDefault) = "(1, [-1.5, b'x\"'], {'s0': None})" := by decide
+example : renderText (defaultToks DCfg.repaired (fun _ => 3) demoDefault) = "(1, [-1.5, b'x\"'], {'s0': None})" := by decide
+example : IsExpr (defaultToks DCfg.asFound (fun _ => 3) demoDefault) := default_is_valid_expr_partial _ _ _ (by decide)
+-- the repaired rules on the four witnesses
+example : renderText (defaultToks DCfg.repaired (fun _ => 0) witnessNotInt) = "not 1" ∧
+    renderText (defaultToks DCfg.repaired (fun _ => 0) witnessNotFloat) = "not 1.5" ∧
+    renderText (defaultToks DCfg.repaired (fun _ => 0) witnessInf) = "..." ∧
+    renderText (defaultToks DCfg.repaired (fun _ => 0) witnessBytes) = "b'\\'\"'" := by decide
 
 end StubDefault
 
